@@ -103,8 +103,12 @@ def poly_items(t: Term) -> List[Tuple[tuple, object]]:
 
 # ---------------------------------------------------------------------- comparisons / booleans
 def _len_arg(t: Term) -> Optional[Term]:
-    if t[0] == "call" and t[1] == "len" and len(t[2]) == 1 and not t[3]:
+    if t[0] == "call" and t[1] in ("len", "numpy.size") and len(t[2]) == 1 and not t[3]:
         return t[2][0]
+    if t[0] == "attr" and t[2] == "size":
+        return t[1]                      # arr.size compared with 0 / 1: the same emptiness test as len(arr)
+    if t[0] == "idx" and t[2] == ("c", 0) and t[1][0] == "attr" and t[1][2] == "shape":
+        return t[1][1]                   # arr.shape[0]
     return None
 
 
@@ -371,6 +375,8 @@ def mk_attr(base: Term, name: str) -> Term:
     r = _record_field(base, name=name)
     if r is not None:
         return r
+    if base[0] == "ext":
+        return ("ext", base[1] + "." + name)     # math.inf  ==  `from math import inf`
     return ("attr", base, name)
 
 
